@@ -349,10 +349,12 @@ func (r *zzC20Run) edge(act string, arg int64) (res string) {
 	switch act {
 	case "start":
 		r.guard("SeekStart", func() { res, detail = r.d.start() })
-		r.seeked = true
+		r.seeked = r.seeked || res == "ok"
 	case "seek":
 		r.guard(fmt.Sprintf("seekTS(abstract %d)", arg), func() { res, detail, _ = r.d.seek(r.ns(arg)) })
-		r.seeked = true
+		// Only a seek that succeeds positions the object; one that reports
+		// an error must leave it as it was (never positioned included).
+		r.seeked = r.seeked || res == "ok"
 	case "read":
 		var line string
 		r.guard("ReadNext", func() { line, res, detail = r.d.read() })
@@ -455,7 +457,13 @@ func (r *zzC20Run) walk() {
 		}
 
 		r.emit(zzC20Rec{"k": "cover", "id": r.c.ID, "src": s.src, "act": s.act, "arg": s.arg})
-		r.edge(s.act, s.arg)
+		res := r.edge(s.act, s.arg)
+		if s.act == "seek" && res != "ok" && s.src >= 0 {
+			// read -> failed seek -> read: what the next read returns after
+			// a seek that reported an error is observed directly, not only
+			// through the projected cursor.
+			r.edge("read", 0)
+		}
 	}
 }
 
@@ -467,7 +475,7 @@ func (r *zzC20Run) ops() {
 		case 0:
 			var res, detail string
 			r.guard("SeekStart", func() { res, detail = r.d.start() })
-			r.seeked = true
+			r.seeked = r.seeked || res == "ok"
 			rec["op"], rec["res"] = "start", res
 			if detail != "" {
 				rec["detail"] = detail
@@ -476,7 +484,7 @@ func (r *zzC20Run) ops() {
 			var res, detail string
 			var depth int
 			r.guard(fmt.Sprintf("seekTS(abstract %d)", op[1]), func() { res, detail, depth = r.d.seek(r.ns(op[1])) })
-			r.seeked = true
+			r.seeked = r.seeked || res == "ok"
 			rec["op"], rec["t"], rec["res"], rec["depth"] = "seek", op[1], res, depth
 			if detail != "" {
 				rec["detail"] = detail
